@@ -119,7 +119,7 @@ def fn_Head : List Line := [
   (1, "return", "nil")   -- exact: `Head` succeeds and consumes nothing
 ]
 
-/-- `pars.End` — `ModParse.atEnd`, `Fasta.endP`: succeeds iff no byte is left -/
+/-- `pars.End` — `ModParse.atEnd`, `Fasta.endP`: succeeds iff no byte is left (bridge `Gts.Bridge.end_sim`) -/
 def fn_End : List Line := [
   (0, "func", "(state *State, result *Result) error"),
   (1, "if", "state.Request(1) == nil"),   -- atEnd / endP: `match (← getS).rest with` — `Request(1)` succeeds iff a byte is left (`Pars.request 1`)
@@ -158,7 +158,7 @@ def fn_Byte_func0 : List Line := [
   (1, "return", "nil")
 ]
 
-/-- the parser `pars.Byte(c)` returns — `ModParse.byte c`: `let d ← next; if d != c then fail; advance1` -/
+/-- the parser `pars.Byte(c)` returns — `ModParse.byte c`: `let d ← next; if d != c then fail; advance1` (bridge `Gts.Bridge.byte_sim`) -/
 def fn_Byte_func1 : List Line := [
   (0, "func", "(state *State, result *Result) error"),
   (1, "assign", "v5, v6 := Next(state)"),   -- byte: `let d ← next`
@@ -199,7 +199,7 @@ def fn_Bytes : List Line := [
   (1, "return", "func0")   -- lit (whole body)
 ]
 
-/-- the parser `pars.Bytes(p)` returns — `Pars.lit p`: `if s.rest.take p.length == p && p.length ≤ s.rest.length then advanceN p.length else fail` -/
+/-- the parser `pars.Bytes(p)` returns — `Pars.lit p`: `if s.rest.take p.length == p && p.length ≤ s.rest.length then advanceN p.length else fail` (bridge `Gts.Bridge.bytes_sim`) -/
 def fn_Bytes_func0 : List Line := [
   (0, "func", "(state *State, result *Result) error"),
   (1, "if", "v3 := state.Request(len(p0)); v3 != nil"),   -- lit: `p.length ≤ s.rest.length` (`Pars.request`)
@@ -218,7 +218,7 @@ def fn_Dry : List Line := [
   (1, "return", "func0")   -- fieldPadding: the dry-run of `eol`
 ]
 
-/-- the parser `pars.Dry(q)` returns — `GenBank.fieldPadding`: `Push`, the parser, `Pop` on BOTH outcomes, the parser's verdict: a look-ahead that consumes nothing -/
+/-- the parser `pars.Dry(q)` returns — `GenBank.fieldPadding`: `Push`, the parser, `Pop` on BOTH outcomes, the parser's verdict: a look-ahead that consumes nothing (bridge `Gts.Bridge.dry_sim`) -/
 def fn_Dry_func0 : List Line := [
   (0, "func", "(state *State, result *Result) error"),
   (1, "state", "state.Push()"),   -- fieldPadding: the look-ahead consumes nothing — the position is saved
@@ -257,7 +257,7 @@ def fn_Any : List Line := [
   (1, "return", "func0")   -- anyOf (whole body)
 ]
 
-/-- the parser `pars.Any(q…)` returns — `LocParse.anyOf`: `push`; alternatives from wherever the previous one left the state; success `drop`s; a failure with nothing pushed any more fails at once; all failed: `pop`, fail -/
+/-- the parser `pars.Any(q…)` returns — `LocParse.anyOf`: `push`; alternatives from wherever the previous one left the state; success `drop`s; a failure with nothing pushed any more fails at once; all failed: `pop`, fail (bridge `Gts.Bridge.any_sim`) -/
 def fn_Any_func0 : List Line := [
   (0, "func", "(state *State, result *Result) (err0 error)"),
   (1, "state", "state.Push()"),   -- anyOf: `push`
@@ -278,7 +278,7 @@ def fn_Maybe : List Line := [
   (1, "return", "func0")   -- divisionParser (whole body)
 ]
 
-/-- the parser `pars.Maybe(q)` returns — `GenBank.divisionParser`: a failure of the inner parser is `pure []` with the position restored -/
+/-- the parser `pars.Maybe(q)` returns — `GenBank.divisionParser`: a failure of the inner parser is `pure []` with the position restored (bridge `Gts.Bridge.maybe_sim`) -/
 def fn_Maybe_func0 : List Line := [
   (0, "func", "(state *State, result *Result) error"),
   (1, "state", "state.Push()"),   -- divisionParser: the frame of `Maybe` (the inner `Map` / `Seq` restore the position themselves; net effect none)
@@ -715,7 +715,7 @@ def fn_Parser_Map : List Line := [
   (1, "return", "func0")   -- mapP (whole body)
 ]
 
-/-- the parser `p.Map(f)` returns — `ModParse.mapP`: `push; match ← attempt p with | none => do pop; fail | some v => do drop; pure (f v)`; a failing mapping (`genbankLocusParser/func0`: the date) leaves the position BEHIND the parser — `GenBank.locusBack` -/
+/-- the parser `p.Map(f)` returns — `ModParse.mapP`: `push; match ← attempt p with | none => do pop; fail | some v => do drop; pure (f v)`; a failing mapping (`genbankLocusParser/func0`: the date) leaves the position BEHIND the parser — `GenBank.locusBack` (bridge `Gts.Bridge.map_sim`, `point_sim`) -/
 def fn_Parser_Map_func0 : List Line := [
   (0, "func", "(state *State, result *Result) error"),
   (1, "state", "state.Push()"),   -- mapP: `push`
@@ -1142,7 +1142,7 @@ def fn_State_ReadByte : List Line := [
   (1, "return", "v1, nil")
 ]
 
-/-- `State.Request(n)` — `Pars.request n`: succeeds iff `n` more bytes exist.  The `for` loop (reading from the `io.Reader` in chunks) is NOT modelled: the function-level bridge takes it as a parameter `fill_` specified by `Gts.Bridge.FillOk` (nothing but the buffer, the reader and its error change; the input as a whole is kept; afterwards the `n` bytes are buffered or the reader has ended) -/
+/-- `State.Request(n)` — `Pars.request n`: succeeds iff `n` more bytes exist.  The `for` loop (reading from the `io.Reader` in chunks) is NOT modelled: the function-level bridge takes it as a parameter `fill_` specified by `Gts.Bridge.FillOk` (nothing but the buffer, the reader and its error change; the input as a whole is kept; afterwards the `n` bytes are buffered or the reader has ended) (bridge `Gts.Bridge.request_sim`) -/
 def fn_State_Request : List Line := [
   (0, "func", "(recv *State) (n0 int) error"),
   (1, "for", "len(recv.buf) < recv.off + n0 && recv.err == nil"),   -- not modelled (buffering): while the buffer is short and the reader has not ended
@@ -1192,19 +1192,19 @@ def fn_State_Position : List Line := [
   (1, "return", "recv.pos")
 ]
 
-/-- `State.Push` — `Pars.push`: `stk := s.rest :: s.stk` -/
+/-- `State.Push` — `Pars.push`: `stk := s.rest :: s.stk` (bridge `Gts.Bridge.push_sim`) -/
 def fn_State_Push : List Line := [
   (0, "func", "(recv *State) ()"),
   (1, "call", "recv.stk.Push(recv.off, recv.pos)")   -- push
 ]
 
-/-- `State.Pushed` — `Pars.pushed`: `!(← getS).stk.isEmpty` -/
+/-- `State.Pushed` — `Pars.pushed`: `!(← getS).stk.isEmpty` (bridge `Gts.Bridge.pushed_sim`) -/
 def fn_State_Pushed : List Line := [
   (0, "func", "(recv State) () bool"),
   (1, "return", "!recv.stk.Empty()")   -- pushed
 ]
 
-/-- `State.Pop` — `Pars.pop`: `| [] => pure () | r :: st => setS { rest := r, stk := st }` -/
+/-- `State.Pop` — `Pars.pop`: `| [] => pure () | r :: st => setS { rest := r, stk := st }` (bridge `Gts.Bridge.pop_sim`) -/
 def fn_State_Pop : List Line := [
   (0, "func", "(recv *State) ()"),
   (1, "if", "!recv.stk.Empty()"),   -- pop: `| [] => pure ()` — NO panic on an empty stack
@@ -1212,7 +1212,7 @@ def fn_State_Pop : List Line := [
   (2, "call", "recv.autoclear()")   -- invisible in the model (`autoclear`)
 ]
 
-/-- `State.Drop` — `Pars.drop`: `stk := s.stk.drop 1` -/
+/-- `State.Drop` — `Pars.drop`: `stk := s.stk.drop 1` (bridge `Gts.Bridge.drop_sim`) -/
 def fn_State_Drop : List Line := [
   (0, "func", "(recv *State) ()"),
   (1, "if", "!recv.stk.Empty()"),   -- drop: `[].drop 1 = []` — NO panic on an empty stack
@@ -1220,14 +1220,14 @@ def fn_State_Drop : List Line := [
   (2, "call", "recv.autoclear()")   -- invisible in the model (`autoclear`)
 ]
 
-/-- `State.autoclear` — invisible in the model: with no saved position left the buffer in front of the offset is released (`Clear`); the abstraction `absState` does not change -/
+/-- `State.autoclear` — invisible in the model: with no saved position left the buffer in front of the offset is released (`Clear`); the abstraction `absState` does not change (bridge `Gts.Bridge.stateAutoclear_spec`) -/
 def fn_State_autoclear : List Line := [
   (0, "func", "(recv *State) ()"),
   (1, "if", "recv.stk.Empty()"),   -- only when nothing is pushed
   (2, "call", "recv.Clear()")   -- `clear` on an empty stack changes nothing in `PS`
 ]
 
-/-- `State.Clear` — `Pars.clear`: `stk := []`; the position stays -/
+/-- `State.Clear` — `Pars.clear`: `stk := []`; the position stays (bridge `Gts.Bridge.clear_sim`) -/
 def fn_State_Clear : List Line := [
   (0, "func", "(recv *State) ()"),
   (1, "assign", "recv.buf = recv.buf[recv.off:]"),   -- invisible in the model: the consumed bytes are released
@@ -1235,7 +1235,7 @@ def fn_State_Clear : List Line := [
   (1, "call", "recv.stk.Reset()")   -- clear: `stk := []`
 ]
 
-/-- `pars.Skip(state, n)` — `Pars.line`: `rest := if r.length < n then r else r.drop n`; `Fasta.untilLoop`: `| [] => … | _ :: _ => advance1` -/
+/-- `pars.Skip(state, n)` — `Pars.line`: `rest := if r.length < n then r else r.drop n`; `Fasta.untilLoop`: `| [] => … | _ :: _ => advance1` (bridge `Gts.Bridge.parsSkip_spec`) -/
 def fn_Skip : List Line := [
   (0, "func", "(state *State, n0 int) error"),
   (1, "if", "v0 := state.Request(n0); v0 != nil"),   -- line: `if r.length < n` (`Pars.request n`)
@@ -1244,7 +1244,7 @@ def fn_Skip : List Line := [
   (1, "return", "nil")   -- success
 ]
 
-/-- `pars.Next` — `Pars.next`: the next byte, or failure at the end of the input (state unchanged) -/
+/-- `pars.Next` — `Pars.next`: the next byte, or failure at the end of the input (state unchanged) (bridge `Gts.Bridge.next_sim`) -/
 def fn_Next : List Line := [
   (0, "func", "(state *State) (byte, error)"),
   (1, "if", "v0 := state.Request(1); v0 != nil"),   -- next: `| [] =>`
@@ -1275,7 +1275,7 @@ def fn_String : List Line := [
   (1, "return", "func0")   -- lit (whole body)
 ]
 
-/-- the parser `pars.String(s)` returns — `Pars.lit p`: `if s.rest.take p.length == p && p.length ≤ s.rest.length then advanceN p.length else fail` -/
+/-- the parser `pars.String(s)` returns — `Pars.lit p`: `if s.rest.take p.length == p && p.length ≤ s.rest.length then advanceN p.length else fail` (bridge `Gts.Bridge.string_sim`) -/
 def fn_String_func0 : List Line := [
   (0, "func", "(state *State, result *Result) error"),
   (1, "if", "v3 := state.Request(len(v2)); v3 != nil"),   -- lit: `p.length ≤ s.rest.length` (`Pars.request`)
